@@ -70,8 +70,19 @@ def run(ctx):
     extra.append({"src": "set f to transform if match == 'a' then set x to true else set x to 'q' end return x - 1 end\nreplace all any with f",
                   "texts": ["a", "b"]})
     extra.append({"src": "set f to transform return 1 / 0 end\nreplace all 'a' with f", "texts": ["a"]})
-    for c in extra[-2:]:
-        pass
+    # process code that leaves something behind: transforms referenced several times in one replacement list, predicates asked several times in one attempt;
+    # every call starts from the environment the checker assumed (unknown names are strings, match is the match text)
+    stateful = ["set out to seen + match set seen to out == match return out", "set out to seen + match set seen to true return out",
+                "set r to match + n set n to matchLength > 0 return r", "set r to '' + match set match to match == 'a' return r",
+                "set r to '' + matchLength set matchLength to true return r", "set r to '' + matchNumber set matchNumber to false return r",
+                "set r to seen - 1 set seen to 'x' < 'y' return '' + r", "if seen == '' then set seen to true return 'first' end return seen + 'again'"]
+    for i, body in enumerate(stateful):
+        other = stateful[(i + 3) % len(stateful)]
+        head = "set f to transform %s end\nset g to transform %s end\n" % (body, other)
+        for repl in ("f '-' f", "f f f", "f g", "g f g", "f value f"):
+            extra.append({"src": head + "replace all letter with " + repl, "texts": ["xax", "a", "ab", "", "a1b"]})
+        extra.append({"src": "set p to pattern letter begin %s end\nfind all p p" % body.replace("return out", "return out == out").replace("return r", "return r == r").replace("return '' + r", "return true").replace("return 'first'", "return true").replace("return seen + 'again'", "return false"),
+                      "texts": ["xax", "ab", ""]})
     # inputs that end in the middle of a multi-byte character, stray lead and continuation bytes (implementation alone: the model is about bytes, these are about the scan)
     bprogs = ["find all 'z'", "find all at least 1 letter", "find all maybe 'a'", "find all any", "find all not 'a'", "find all at least 0 (line start)", "find all word start at least 1 letter word end",
               "replace all 'b' with 'B'", "find all whole line", "find all (any = x) maybe x", "find all in 'a' to 'z'", "find all whitespace", "find all line end", "find last 1 any", "find all caseless 'CAF'"]
